@@ -28,6 +28,11 @@ Rules (every executed operation is appended to ``ops``; the list *is* the replay
     an event, the call for ``POOL[b]`` runs to completion, then A resumes and writes the rest.
     The harness owns the schedule; A is joined before the step ends.
 
+Besides the generated histories, `fixed_cases` holds witness histories of the original defect
+and *sweeps*: one short history per cut position k = 0..len(stream) ("a crash after every
+prefix of the bytes written"), for crash (every pool expression) and for interleave (every
+ordered pair of colliding expressions, and a == b).
+
 After the last rule the history is closed by two rounds of ``call`` for every pool expression
 that was touched, and every file left in the directory is opened with ``pickle.load`` (files
 that do not load must have been ignored by those calls; their number is only a label).
@@ -67,7 +72,12 @@ RULE = (
     "PYTHONHASHSEED=0|7|unset for k%3=0|1|2. Non-trivial: two *different* pool expressions with "
     "the same cache key are both passed to perform_cached_doit by a rule, or a rule-level call "
     "follows a crash/garbage/parked-interleave on the same cache file (the closing rounds do "
-    "not count). Distinct = distinct (mode, ops) hash."
+    "not count). Distinct = distinct (mode, ops) hash. Fixed cases (always run, each in a "
+    "process of its mode): witness histories of the original defect, and exhaustive sweeps over "
+    "the cut position k = 0..len(stream) ('a crash after every prefix of the bytes written'): "
+    "crash(a,k);call(a) for each of the 12 pool expressions, interleave(a,b,k);call(b);call(a) "
+    "for every ordered pair of colliding expressions (unset seed) and for a==b in each mode; a "
+    "sweep counts as one evaluation (detail: sweep_histories)."
 )
 ASSUMPTIONS = [
     "the oracle is POOL[i].doit() evaluated directly in the same process and compared with == "
@@ -86,11 +96,15 @@ ASSUMPTIONS = [
     "resumes); the multi-process stress of the thorough tier is weak evidence (label "
     "stress:weak_evidence): silence there proves little",
     "with PYTHONHASHSEED=random the pickle byte streams (set ordering) may differ between "
-    "processes, so the byte at offset k of a replayed crash may differ; lengths do not",
+    "processes, so the byte at offset k of a replayed crash may differ",
+    "the per-history cache directories live on /dev/shm when it is writable (metadata "
+    "operations on the journalled disk cost 2-3 ms each), else under /verif/.work; the shard "
+    "process limits its address space to 4 GiB so that a corrupt stream that makes pickle.load "
+    "allocate without bound ends as MemoryError instead of exhausting the shared machine",
 ]
 BUDGET = {
-    "quick": {"examples": 160, "shards": 16, "cap_s": 90, "shrink_calls": 150, "shrink_s": 45, "steps": 11},
-    "thorough": {"examples": 3200, "shards": 16, "cap_s": 1200, "shrink_calls": 600, "shrink_s": 180, "steps": 13},
+    "quick": {"examples": 480, "shards": 16, "cap_s": 150, "shrink_calls": 150, "shrink_s": 45, "steps": 11},
+    "thorough": {"examples": 48000, "shards": 16, "cap_s": 1200, "shrink_calls": 600, "shrink_s": 180, "steps": 13},
 }
 
 MODES = ("0", "7", "unset")
@@ -261,6 +275,12 @@ def _setup() -> dict:
 
 
 def _workdir() -> str:
+    """Parent of the per-history cache directories: a RAM file system if there is one (rename,
+    unlink and rmdir cost 2-3 ms each on the journalled disk, ten per history), else .work."""
+    override = os.environ.get("VP_C16_TMP")
+    for cand in (override, "/dev/shm"):
+        if cand and os.path.isdir(cand) and os.access(cand, os.W_OK | os.X_OK):
+            return cand
     d = ROOT / ".work"
     try:
         d.mkdir(exist_ok=True)
@@ -622,6 +642,8 @@ def run_case(desc) -> Result:
     mode = str(desc.get("mode", current_mode()))
     if mode != current_mode() and not os.environ.get("VP_C16_CHILD"):
         return _run_in_mode(desc, mode)
+    if "sweep" in desc:
+        return _run_sweep(desc["sweep"])
     h = History()
     try:
         for op in desc["ops"]:
@@ -679,9 +701,52 @@ def fixed_cases(tier):
             {"mode": mode, "ops": [["interleave", 0, 0, 10], ["interleave", 3, 4, 60],
                                    ["interleave", 9, 10, -1], ["call", 4], ["call", 3]]},
         ]
+    # "a crash after every prefix of the bytes written": exhaustive over the cut position
+    for i in range(N_POOL):
+        cases.append({"mode": MODES[i % 3], "sweep": {"kind": "crash", "a": i, "b": i}})
+    for group in GROUPS:  # two writers of colliding keys (same file only without a hash seed)
+        for a in group:
+            for b in group:
+                if a != b:
+                    cases.append({"mode": "unset", "sweep": {"kind": "interleave", "a": a, "b": b}})
+    for mode, a in (("0", 0), ("7", 9), ("unset", 3)):  # two writers of the same expression
+        cases.append({"mode": mode, "sweep": {"kind": "interleave", "a": a, "b": a}})
     if tier == "thorough":
         cases += [{"stress": {"mode": m, "procs": 8, "calls": 200, "seed": n}} for n, m in enumerate(MODES)]
     return cases
+
+
+def _run_sweep(cfg) -> Result:
+    """One small history per cut position k = 0..len(stream): crash(a,k); call(a)  or
+    interleave(a,b,k); call(b); call(a).  Returns the first violation (with its ops)."""
+    kind, a, b = str(cfg["kind"]), int(cfg["a"]), int(cfg["b"])
+    probe = History()
+    probe.apply(["crash", a, -1])
+    total = next((t[3] for t in probe.trace if t[0] == "crash" and len(t) == 4), None)
+    res = probe.finish()
+    labels = {f"sweep:{kind}_at_every_prefix"}
+    n = 0
+    if res.status == "ok" and total is not None:
+        for k in range(total + 1):
+            if kind == "crash":
+                ops = [["crash", a, k], ["call", a]]
+            else:
+                ops = [["interleave", a, b, k], ["call", b], ["call", a]]
+            h = History()
+            for op in ops:
+                h.apply(op)
+            res = h.finish()
+            n += 1
+            labels.update(res.labels)
+            if res.status != "ok":
+                break
+    elif res.status == "ok":
+        labels.add("sweep:nothing_written_through_pickle_dump")
+    if res.status != "ok":
+        detail = dict(res.detail)
+        detail.update(ops=ops if n else [["crash", a, -1]], sweep_histories=n, stream_length=total)
+        return violation(res.kind, True, sorted(labels), **detail)
+    return ok(True, sorted(labels), sweep_histories=n, stream_length=total)
 
 
 # ----------------------------------------------------------------------- multi-process stress
